@@ -70,14 +70,17 @@ def skip(expr: Expression, rules: Mapping[str, Rule]) -> Expression:
 
 
 def _skip(
-    expr: Expression, rules: Mapping[str, Rule], subs: list[str]
+    expr: Expression,
+    rules: Mapping[str, Rule],
+    subs: list[str],
+    seen: frozenset[str] = frozenset(),
 ) -> SkipUntil | None:
     if isinstance(expr, Group):
         expr = expr.expression
 
     if isinstance(expr, Choice):
         for ex in expr.expressions:
-            inlined_subs = _skip(ex, rules, subs)
+            inlined_subs = _skip(ex, rules, subs, seen)
             if not inlined_subs:
                 return None
         return SkipUntil(subs)
@@ -92,7 +95,8 @@ def _skip(
 
     if isinstance(expr, Identifier):
         rule = rules.get(expr.value)
-        if rule:
-            return _skip(rule.expression, rules, subs)
+        if rule and expr.value not in seen:
+            # A rule that refers back to itself is not a plain set of literals.
+            return _skip(rule.expression, rules, subs, seen | {expr.value})
 
     return None
